@@ -134,10 +134,10 @@ RLaunch(c, k, ok) ==
   /\ sweepReq' = sweepReq \cup {SReq(c, k, ok)}
   /\ UNCHANGED <<chans, durVars, spent, alive, arb, mq, rcpc, upstream, ncrash>>
 \* the anchor resolver of an anchor-type channel (stateless, re-created at every start; never worth sweeping here)
-RAnchor(c, again) ==
+RAnchor(c, again, ok) ==
   /\ Running(c) /\ Taproot(c) /\ \E k \in Kinds : res[c][k].pc # "none"
   /\ again \/ SReq(c, "anchor", TRUE) \notin sweepReq
-  /\ sweepReq' = sweepReq \cup {SReq(c, "anchor", TRUE)}
+  /\ sweepReq' = sweepReq \cup {SReq(c, "anchor", ok)}
   /\ UNCHANGED <<chans, durVars, spent, volVars, upstream, ncrash>>
 \* the timeout resolver fails the HTLC back once its sweep has confirmed
 RUp(c) ==
@@ -225,7 +225,7 @@ Init ==
 Next ==
   \/ Start \/ Crash \/ Finished
   \/ \E c \in chans :
-       \/ ACommit(c) \/ AIns(c) \/ RAnchor(c, FALSE) \/ RUp(c) \/ MarkClosed(c, c) \/ Wipe(c)
+       \/ ACommit(c) \/ AIns(c) \/ RAnchor(c, FALSE, TRUE) \/ RUp(c) \/ MarkClosed(c, c) \/ Wipe(c)
        \/ \E k \in Kinds : RLaunch(c, k, TRUE) \/ RCheckpoint(c, k, c) \/ RResolve(c, k)
                            \/ SweepDone(c, k)
 Spec == Init /\ [][Next]_vars
